@@ -239,7 +239,7 @@ export function member(rng, rt, env, d) {
       for (const [kt, vt] of rt[2]) {
         for (let i = rng.below(3); i > 0; i--) {
           let k = member(rng, kt, env, d - 1);
-          if (typeof k !== "string") k = String(k);
+          if (typeof k !== "string") { try { k = String(k); } catch (e) { k = "k"; } }   // a key type may be anything at this level (null-prototype objects have no toString)
           if (!(k in o)) Object.defineProperty(o, k, { value: member(rng, vt, env, d - 1), enumerable: true, configurable: true, writable: true });
         }
       }
